@@ -3,7 +3,7 @@ EXTENDS ExploreProps, TLC, Json, IOUtils, SequencesExt
 Obs == ndJsonDeserialize("obs.ndjson")
 Kept  == [t \in 1..9 |-> 2 + t]
 Total == [t \in 1..9 |-> 5 + 2 * t]
-Viol == UNION {{[id |-> Obs[k].id, sig |-> v] : v \in C20(Obs[k].events, Kept, Total, 4 * Obs[k].retryMs)} : k \in DOMAIN Obs}
+Viol == UNION {{[id |-> Obs[k].id, sig |-> v] : v \in C20(Obs[k].events, Kept, Total, 10 * Obs[k].retryMs)} : k \in DOMAIN Obs}
 NonTrivial == Cardinality({k \in DOMAIN Obs : \E e \in {Obs[k].events[i] : i \in DOMAIN Obs[k].events} : e.ev = "probe-end" /\ ~e.ok})
 ASSUME ndJsonSerialize("viol.ndjson", SetToSeq(Viol))
 ASSUME ndJsonSerialize("evalstats.ndjson", <<[histories |-> Len(Obs), nontrivial |-> NonTrivial]>>)
